@@ -250,8 +250,8 @@ def check(ctx, prog, scope, floor=1, what="branch-free bodies in scope"):
             continue
         f = fs[0]
         n += 1
-        if (prog.cfg, f.path) in ctx.analysed["functions"]:
-            continue   # a dedicated rule of this check already reads this body: the normal form adds nothing there
+        if (prog.cfg, f.path) in ctx.vouched:
+            continue   # a dedicated rule of this check already determines what this body computes: the normal form adds nothing there
         if EXCLUDE.search(path):
             continue
         if not straight(f):
@@ -259,7 +259,7 @@ def check(ctx, prog, scope, floor=1, what="branch-free bodies in scope"):
             # depends on whether a dedicated rule of this check reads the body - decided when the check finishes.
             ctx.deferred.append((R, "%s is branch-free and has its reviewed value" % f.short, "no longer branch-free, and no other rule of this check reads the body", f.loc(), prog.cfg, (prog.cfg, f.path)))
             continue
-        if (prog.cfg, f.path) not in ctx.analysed["functions"]:
+        if (prog.cfg, f.path) not in ctx.vouched:
             ctx.generic_visits.add((prog.cfg, f.path))
         ctx.visit(f)
         if "Const" in (f.kind or ""):
@@ -505,13 +505,13 @@ def check_paths(ctx, prog, scope, floor=1):
             continue
         f = fs[0]
         n += 1
-        if (prog.cfg, f.path) in ctx.analysed["functions"]:
+        if (prog.cfg, f.path) in ctx.vouched:
             continue
         got = path_summary(prog, f) if loop_free(f) else None
         if got is None:
             ctx.deferred.append((R2, "%s keeps its reviewed (conditions -> result) table" % f.short, "no longer a loop-free, effect-free body, and no other rule of this check reads it", f.loc(), prog.cfg, (prog.cfg, f.path)))
             continue
-        if (prog.cfg, f.path) not in ctx.analysed["functions"]:
+        if (prog.cfg, f.path) not in ctx.vouched:
             ctx.generic_visits.add((prog.cfg, f.path))
         ctx.visit(f)
         ok = got == want
